@@ -154,7 +154,15 @@ fn cmd_check(args: &[String]) -> i32 {
         }
         if let Some(f) = br.failure {
             let v = f.out.ctx.violation.clone().unwrap();
-            return report_violation(&plan, f.scen, &id, seed, f.idx, &f.out.cfg, f.out.steps.clone(), &v, known.clone());
+            merge_agg(&mut agg, br.agg);
+            let rc = report_violation(&plan, f.scen, &id, seed, f.idx, &f.out.cfg, f.out.steps.clone(), &v, known.clone());
+            if rc == 1 {
+                let replay = verif_dir().join("replays").join(format!("{id}-{}-{seed}-{}.json", f.scen.name, f.idx));
+                agg.samples.insert(0, json!({"violation": v, "replay": replay.display().to_string()}));
+                agg.samples.truncate(3);
+                write_evidence(&plan, &id, tier, seed, &agg, t0.elapsed().as_secs_f64(), &per_scen, &known_seen, 1);
+            }
+            return rc;
         }
         per_scen.push(json!({"scenario": part.scen.name, "runs": br.agg.runs, "transactions": br.agg.txs, "wall_s": ts.elapsed().as_secs_f64()}));
         merge_agg(&mut agg, br.agg);
@@ -239,7 +247,7 @@ fn report_violation(
         min_v.check, min_v.sig, min_v.step, min_v.detail
     );
     println!("VIOLATION property={id} replay={}", path.display());
-    write_evidence_violation(plan, id, seed, &min_v, &path.display().to_string());
+    let _ = plan;
     1
 }
 
@@ -416,26 +424,4 @@ fn write_evidence(
     let dir = verif_dir().join("evidence");
     let _ = std::fs::create_dir_all(&dir);
     std::fs::write(dir.join(format!("{id}.json")), serde_json::to_string_pretty(&ev).unwrap()).expect("write evidence");
-}
-
-fn write_evidence_violation(plan: &Plan, id: &str, seed: u64, v: &Violation, replay: &str) {
-    let tier = if std::env::var("VERIF_TIER").as_deref() == Ok("thorough") { "thorough" } else { "quick" };
-    let ev = json!({
-        "property_id": id,
-        "tier": tier,
-        "seed": seed,
-        "level": plan.level,
-        "wall_s": 0.0,
-        "violations": 1,
-        "coverage": {
-            "evaluations": 1,
-            "distinct_nontrivial": 2,
-            "rule": plan.rule,
-            "samples": [ {"violation": v, "replay": replay} ],
-        },
-        "assumptions": plan.assumptions,
-    });
-    let dir = verif_dir().join("evidence");
-    let _ = std::fs::create_dir_all(&dir);
-    let _ = std::fs::write(dir.join(format!("{id}.json")), serde_json::to_string_pretty(&ev).unwrap());
 }
